@@ -1,7 +1,7 @@
 """C08 — merge results do not depend on delivery order or grouping (DESIGN §4/C08)."""
 from rules import lib
 from rules.lib import Prov, show, walk
-from props import mergetab
+from props import mergetab, sides
 
 LEVEL = ("Mechanism level: symmetry law on the extracted per-state merge tables — class(merge(a,b)) == class(merge(b,a)) "
          "with class in {RequestSentBy, Executed, Failed, Error}, for the call table, the executed-value sub-table and the "
@@ -16,6 +16,7 @@ def _cls_call(a, b, o):
 
 def check(ctx):
     F = ctx.facts("prod")
+    sides.check_sides(ctx, F)
     ctx.clause("R-TABLE symmetry up to sender identity: call 3x3, executed-value 3x3, canon 2x2")
     ctx.clause("R-TABLE one-sided rows of the five mergers mirror each other")
     f, cells = mergetab.call_cells(ctx, F)
